@@ -1,0 +1,18 @@
+//go:build verif
+
+// Constructive access for the /verif harness. Add-only: not compiled without the `verif`
+// build tag.
+
+package mgmt
+
+import "github.com/named-data/ndnd/fw/face"
+
+// VerifMakeThread is MakeMgmtThread (which registers the NLSR readvertiser with the RIB when
+// the configuration enables it) for a thread that is not run: the given internal transport,
+// made but not started, takes the place of the one Run would register, so that what the
+// thread's components send can be collected with InternalTransport.VerifTakeSent.
+func VerifMakeThread(t *face.InternalTransport) *Thread {
+	m := MakeMgmtThread()
+	m.transport = t
+	return m
+}
